@@ -127,11 +127,28 @@ class ProcPart(Part):
             for lc in ([(1, "I", ["panic"])], [(1, "S", ["panic"])], [(1, "I", ["panic"]), (2, "S", ["panic"])],
                        [(1, "S", ["panic"]), (2, "S", ["panic"]), (3, "I", ["panic"])], [(2, "S", ["panic"])],
                        [(1, "S", ["panic_internal"])], [(2, "I", ["panic_internal"])],
-                       [(2, "S", ["send", 500])], [(2, "S", ["poison"])], [(1, "X", ["send", 600])], [(2, "X", ["sendnil", 601])]):
+                       [(2, "S", ["send", 500])], [(2, "S", ["poison"])], [(1, "X", ["send", 600])], [(2, "X", ["sendnil", 601])],
+                       [(1, "X", ["poison"])], [(2, "X", ["stop"])], [(1, "X", ["stop"]), (2, "X", ["poison"])]):
                 for items in ("ub", "bub", "ubgu", "sbu", "bb", "ibu", "ubhb", "gbu", "bgb"):
                     cases.append({"input": build_script(items, maxr, rng.randrange(4), lifecycle=lc,
                                                         ops=rng.choice([(), (("send", 900),), (("poison",), ("poison",))])),
                                   "class": "lifecycle_and_repeats"})
+        # several separate crash episodes, each followed by a clean replay: external sends of
+        # panicking payloads at quiescence (the budget is for the whole life, not per episode)
+        for maxr in (0, 1, 2, 3):
+            for nboom in (1, 2, 3, 4, 5):
+                for shape in ("lone", "with_backlog"):
+                    ops, rules = [], []
+                    for k in range(nboom):
+                        if shape == "lone":       # the panicking message is alone in its batch
+                            ops += [("send", 910 + 2 * k), ("send", 911 + 2 * k)]
+                        else:                     # a trigger makes the batch [boom_k, good_k]: non-empty restart buffer, clean replay
+                            ops += [("send", 930 + k)]
+                            rules.append({"inc": 0, "on": 930 + k, "do": [["sendnil", 910 + 2 * k], ["send", 911 + 2 * k]]})
+                        rules.append({"inc": 0, "on": 910 + 2 * k, "do": [["panic"]]})
+                    sc = build_script("u", maxr, rng.randrange(3), ops=ops)
+                    sc["script"] += rules
+                    cases.append({"input": sc, "class": "repeated_crash_episodes"})
         nrand = 300 if tier == "quick" else 6000
         for _ in range(nrand):
             items = "".join(rng.choice("uuubbgshi") for _ in range(rng.randint(1, 12)))
@@ -139,6 +156,8 @@ class ProcPart(Part):
             for _ in range(rng.randint(0, 2)):
                 lc.append((rng.randint(1, 3), rng.choice("ISSX"), rng.choice([["panic"], ["send", rng.randint(700, 720)], ["poison"], ["stop"], ["panic"]])))
             lc = [l for l in lc if not (l[1] == "X" and l[2][0] in ("panic",))]
+            if rng.random() < 0.2:
+                lc.append((rng.randint(1, 2), "X", rng.choice([["poison"], ["stop"]])))
             ops = []
             for _ in range(rng.randint(0, 4)):
                 ops.append(rng.choice([("send", rng.randint(900, 920)), ("poison",), ("stop",)]))
